@@ -18,6 +18,57 @@
 
 #include "events.h"
 #include "netbuf.h"
+#include "netbuf_ssl_internal.h"
+#include "network.h"
+
+/*
+ * The buffered reader and writer have a second transport interface (used for
+ * TLS): function pointers with the contract of network_read / network_write.
+ * One case in three runs over stand-ins which forward to network_read /
+ * network_write on the same descriptor, so that branch of the netbuf code
+ * carries the same streams under the same oracles.
+ */
+struct network_ssl_ctx {
+	int fd;
+};
+static struct network_ssl_ctx fake_ssl[1024];
+static int use_ssl;
+
+static void *
+fake_ssl_read(struct network_ssl_ctx * ssl, uint8_t * buf, size_t buflen,
+    size_t minread, int (* callback)(void *, ssize_t), void * cookie)
+{
+
+	return (network_read(ssl->fd, buf, buflen, minread, callback, cookie));
+}
+
+static void *
+fake_ssl_write(struct network_ssl_ctx * ssl, const uint8_t * buf, size_t buflen,
+    size_t minwrite, int (* callback)(void *, ssize_t), void * cookie)
+{
+
+	return (network_write(ssl->fd, buf, buflen, minwrite, callback, cookie));
+}
+
+static struct netbuf_read *
+reader_init(int fd)
+{
+
+	if (!use_ssl)
+		return (netbuf_read_init(fd));
+	fake_ssl[fd].fd = fd;
+	return (netbuf_read_init2(fd, &fake_ssl[fd]));
+}
+
+static struct netbuf_write *
+writer_init(int fd, int (* fail_callback)(void *), void * cookie)
+{
+
+	if (!use_ssl)
+		return (netbuf_write_init(fd, fail_callback, cookie));
+	fake_ssl[fd].fd = fd;
+	return (netbuf_write_init2(fd, &fake_ssl[fd], fail_callback, cookie));
+}
 
 static struct vh_rng R;
 static uint64_t casesig;
@@ -41,7 +92,7 @@ tr(const char * fmt, ...)
 static uint64_t st_waits, st_peeks, st_consumes, st_cancels, st_eof, st_err,
     st_bytes_seen, st_grow, st_writes, st_reserves, st_zero, st_bytes_sent,
     st_fail_cb, st_after_fail, st_big_waits, st_cancel_partial,
-    st_consume_pending, st_huge_waits, st_duplex, st_duplex_wfree, st_duplex_rfree;
+    st_consume_pending, st_huge_waits, st_duplex, st_duplex_wfree, st_duplex_rfree, st_ssl;
 
 static void
 viol(const char * key, const char * fmt, ...)
@@ -188,7 +239,7 @@ scenario_reader(uint64_t key)
 	tr("reader: peer sends %llu bytes then %s; recv segments <= %u:", (unsigned long long)total,
 	    end == SIMK_END_EOF ? "EOF" : end == SIMK_END_ERROR ? "error" : "stalls", f->seg_max);
 
-	if ((NR = netbuf_read_init(fd)) == NULL) {
+	if ((NR = reader_init(fd)) == NULL) {
 		viol("reader:init-failed", "netbuf_read_init returned NULL");
 		simk_closefd(fd);
 		return;
@@ -392,7 +443,7 @@ scenario_duplex(uint64_t key)
 	tr("duplex: wait(%zu) pending and a write in flight on one descriptor, then the %s is torn down:",
 	    k, free_writer ? "writer" : "reader");
 	dfail_ncb = 0;
-	if ((NR = netbuf_read_init(fd)) == NULL || (W = netbuf_write_init(fd, dfail_cb, NULL)) == NULL) {
+	if ((NR = reader_init(fd)) == NULL || (W = writer_init(fd, dfail_cb, NULL)) == NULL) {
 		viol("duplex:init-failed", "netbuf init returned NULL");
 		simk_closefd(fd);
 		return;
@@ -530,7 +581,7 @@ scenario_writer(uint64_t key)
 	tr("writer: transport %s; send accepts <= %u per call:", f->out_fail_at == SIMK_NEVER ? "healthy" : "fails at an offset",
 	    f->out_seg_max);
 
-	if ((W = netbuf_write_init(fd, fail_cb, NULL)) == NULL) {
+	if ((W = writer_init(fd, fail_cb, NULL)) == NULL) {
 		viol("writer:init-failed", "netbuf_write_init returned NULL");
 		simk_closefd(fd);
 		return;
@@ -674,6 +725,10 @@ main(int argc, char ** argv)
 	count = strtoull(argv[3], NULL, 0);
 	vh_stdout_linebuf();
 	close(0);
+	netbuf_read_ssl_func = fake_ssl_read;
+	netbuf_read_ssl_cancel_func = network_read_cancel;
+	netbuf_write_ssl_func = fake_ssl_write;
+	netbuf_write_ssl_cancel_func = network_write_cancel;
 	simk_busy_limit = 3000000;
 	simk_on_busy = on_busy;
 	for (i = first; i < first + count; i++) {
@@ -697,6 +752,9 @@ main(int argc, char ** argv)
 		casesig = 0;
 		trace[0] = '\0';
 		printf("CASE %llu\n", (unsigned long long)i);
+		use_ssl = vh_chance(&R, 1, 3);
+		st_ssl += (uint64_t)use_ssl;
+		casesig = vh_fnv_u64(casesig, (uint64_t)use_ssl + 77);
 		if (vh_chance(&R, 1, 8))
 			scenario_duplex(seed ^ (i * 31337));
 		else if (vh_chance(&R, 1, 2))
@@ -731,6 +789,7 @@ main(int argc, char ** argv)
 	    (unsigned long long)st_bytes_sent, (unsigned long long)st_fail_cb, (unsigned long long)st_after_fail,
 	    (unsigned long long)simk_npoll, (unsigned long long)simk_nrecv, (unsigned long long)simk_nsend);
 	(void)st_grow;
-	printf("STAT cases_with_descriptor_0_free %llu\n", (unsigned long long)st_fd0_free);
+	printf("STAT cases_with_descriptor_0_free %llu\nSTAT cases_over_the_function_pointer_transport %llu\n",
+	    (unsigned long long)st_fd0_free, (unsigned long long)st_ssl);
 	return (0);
 }
